@@ -6,9 +6,9 @@ import gen as G
 import streams as S
 
 ID = "C04"
-MODULE = "JmesVerif.Props.C04"
-THEOREMS = ["C04_lbp_table", "C04_call_sites", "C04_documented_order", "C04_parse_is_rule_tree", "C04_unambiguous",
-            "C04_operands_bind_tighter", "C04_projection_stop", "C04_paren_invariance", "C04_paren_legal", "C04_ast_vocabulary"]
+MODULE = "JmesVerif.Props.C04Code"      # imports Props.C04 and re-prints its axioms
+THEOREMS = ["C04_lbp_table", "C04_documented_order", "C04_parse_is_rule_tree", "C04_unambiguous",
+            "C04_operands_bind_tighter", "C04_projection_stop", "C04_paren_invariance", "C04_paren_legal", "C04_ast_vocabulary", "C04_translated_parser"]
 TRUSTED_BASE = [
     "Lean 4.33 kernel; axioms propext, Classical.choice, Quot.sound only",
     "tools/translate.py (regex extraction of Token::lbp, PROJECTION_STOP and the binding-power argument of every expr/projection_rhs/parse_dot "
